@@ -615,12 +615,35 @@ theorem watchFrom_spec (script : List (List Ans)) (i : Nat) :
 /-- **the watch loop closes a session as executed only at the first tick at which EVERY member of its batch is
     reported executed**, for every batch size and every sequence of per-tick answer vectors (answers may change
     between ticks; lookup errors count as not executed) -/
+theorem allExecAt_closedOk (script : List (List Ans)) (t : Nat) (h : AllExecAt script t) : ClosedOk script t := by
+  unfold AllExecAt at h
+  unfold ClosedOk
+  cases hv : script[t]? with
+  | none => rw [hv] at h; exact h
+  | some v =>
+    rw [hv] at h
+    intro j hj
+    left
+    rw [List.getElem?_eq_getElem hj]
+    exact congrArg some (h _ (List.getElem_mem hj))
+
 theorem watch_PWatch (script : List (List Ans)) : PWatch script (watch script) := by
   have := watchFrom_spec script 0
   unfold PWatch watch
   split at this
-  · next t heq => rw [heq]; simpa using this.2
+  · next t heq =>
+    rw [heq]
+    have h2 : AllExecAt script t ∧ ∀ k, k < t → ¬ AllExecAt script k := by simpa using this.2
+    exact ⟨allExecAt_closedOk script t h2.1, h2.2⟩
   · next heq => rw [heq]; exact this
+
+/-- the model (the code as it is) closes only when all members are reported executed at the SAME tick -/
+theorem watch_closes_at_allExec (script : List (List Ans)) (t : Nat) (h : watch script = some t) :
+    AllExecAt script t := by
+  have := watchFrom_spec script 0
+  unfold watch at h
+  rw [h] at this
+  simpa using this.2.1
 
 /-- hence no pending member is dropped: if member `j` of the batch is not reported executed at tick `t` (pending, or
     its lookup fails), the session is not closed at `t` — it stays open until that member's signature/submission or
@@ -629,12 +652,20 @@ theorem watch_PWatch (script : List (List Ans)) : PWatch script (watch script) :
 theorem no_pending_member_dropped (script : List (List Ans)) (t : Nat) (v : List Ans) (j : Nat) (a : Ans)
     (hv : script[t]? = some v) (hj : v[j]? = some a) (hne : a ≠ .exec) : watch script ≠ some t := by
   intro hw
-  have h := watch_PWatch script
-  rw [hw] at h
-  have := h.1
+  have := watch_closes_at_allExec script t hw
   unfold AllExecAt at this
   rw [hv] at this
   exact hne (this a (List.mem_of_getElem? hj))
+
+/-- whatever the destination answered at the ticks before the signature arrived (partly executed batches included),
+    a session that is still open submits exactly its signed batch; a session closed as executed submits nothing -/
+theorem submitAfterTicks_is_signed (script : List (List Ans)) (signed : List Nat) :
+    (watch script = none → PSubmit signed (submitAfterTicks script signed)) ∧
+    (∀ t, watch script = some t → submitAfterTicks script signed = []) := by
+  unfold submitAfterTicks
+  constructor
+  · intro h; rw [h]; rfl
+  · intro t h; rw [h]
 
 /-- the defect class kept as a witness: a tick decision that looks only at the first member closes D2=[A,B] when A has
     been executed by an overlapping delivery and B is still pending -/
@@ -746,6 +777,10 @@ theorem histbtc_P03 (res : Nat → Nat) (m : List (Nat × Status)) (ops : List B
       · exact btc_P03 res ⟨m, f⟩ ns
       · exact ih _ x hx
     | outcome ok ns f =>
+      intro x hx
+      simp only [runBtc] at hx
+      exact ih _ x hx
+    | timeout ns =>
       intro x hx
       simp only [runBtc] at hx
       exact ih _ x hx
